@@ -21,10 +21,12 @@ class Model:
     def __init__(self):
         self.jobs = {}        # id -> dict(n, st[list of R/T/X], bg, gate_open, pending_int[set of idx], unreported)
         self.fg = None
+        self.seen = {}        # id -> member states as of the shell's last poll (what the shell has been told so far)
 
     def copy(self):
         m = Model()
         m.fg = self.fg
+        m.seen = {k: list(v) for k, v in self.seen.items()}
         m.jobs = {k: dict(n=v['n'], st=list(v['st']), bg=v['bg'], gate_open=v['gate_open'], pending_int=set(v['pending_int']), unreported=v['unreported'])
                   for k, v in self.jobs.items()}
         return m
@@ -133,6 +135,8 @@ class Model:
                     j['bg'] = True
                 self.fg = None
                 polled = True     # the prompt loop polls after the command
+        if polled:
+            self.seen = {jid: list(j['st']) for jid, j in self.jobs.items()}
         # background jobs whose members are all gone are forgotten by the shell at its next poll
         for jid in list(self.jobs):
             if jid != self.fg and all(x == 'X' for x in self.jobs[jid]['st']):
@@ -327,9 +331,14 @@ def enumerate_sequences(depth, tier):
     return out
 
 
+TRACK_SEEN = [False]
+
+
 def model_key(m):
-    """canonical form of a model state: everything the model's future behaviour depends on"""
-    return (m.fg, tuple(sorted((k, v['n'], tuple(v['st']), v['bg'], v['gate_open'], tuple(sorted(v['pending_int'])), v['unreported']) for k, v in m.jobs.items())))
+    """canonical form of a model state: everything the model's future behaviour depends on; with TRACK_SEEN also what the
+    shell has been told at its last poll (two paths that differ only in WHEN the shell polled are then different states)"""
+    seen = tuple(sorted((k, tuple(v)) for k, v in m.seen.items() if k in m.jobs)) if TRACK_SEEN[0] else ()
+    return (m.fg, seen, tuple(sorted((k, v['n'], tuple(v['st']), v['bg'], v['gate_open'], tuple(sorted(v['pending_int'])), v['unreported']) for k, v in m.jobs.items())))
 
 
 def bfs_transitions(alphabet, maxdepth):
@@ -377,13 +386,15 @@ def run(rep, tier):
     # and the full alphabet to depth 6
     have = set(j[0] for j in jobs)
     bfs_info = []
-    for alphabet, maxdepth in ([('quick', 6)] if tier == 'quick' else [('quick', 40), ('thorough', 6)]):
+    for alphabet, maxdepth, seen in ([('quick', 6, False)] if tier == 'quick' else [('quick', 40, False), ('thorough', 6, False), ('thorough', 6, True)]):
+        TRACK_SEEN[0] = seen
         paths, nstates, fix = bfs_transitions(alphabet, maxdepth)
+        TRACK_SEEN[0] = False
         extra = [p for p in paths if p not in have]
         have.update(extra)
         jobs += [(p, alphabet) for p in extra]
         bfs_info.append({'layer': 'explicit-state search over the reference model, every transition replayed on a pty', 'alphabet': 'reduced' if alphabet == 'quick' else 'full',
-                         'max_depth': maxdepth, 'model_states': nstates, 'transitions': len(paths), 'sessions_added': len(extra), 'fixpoint': fix, 'complete': True})
+                         'max_depth': maxdepth, 'states_distinguish_what_the_shell_was_told_at_its_last_poll': seen, 'model_states': nstates, 'transitions': len(paths), 'sessions_added': len(extra), 'fixpoint': fix, 'complete': True})
     seqs = [j[0] for j in jobs]
     states = set()
     for seq, problem, done in common.pmap(run_sequence, jobs, workers=6, chunk=2):
